@@ -442,6 +442,20 @@ func (g *G) expr(t *Ty, depth int) string {
 			}
 			g.meta.feat("sprint")
 			st := rx.Pick(g.rt, "sprintty", tInt, tF64, tBool, tString, tU8)
+			if rx.Chance(g.rt, "sprintmany", 1, 3) {
+				// several operands: Sprint puts a space between two operands when neither is a string
+				g.meta.feat("sprintmany")
+				ops := []string{g.nonLit(st, depth-1)}
+				for k := rx.Range(g.rt, "sprintops", 1, 3); k > 0; k-- {
+					ot := rx.Pick(g.rt, "sprintty2", tInt, tString, tString, tBool, tF64)
+					if rapid.Bool().Draw(g.rt, "sprintlit") {
+						ops = append(ops, g.lit(ot))
+					} else {
+						ops = append(ops, g.nonLit(ot, 0))
+					}
+				}
+				return fmt.Sprintf("fmt.Sprint(%s)", strings.Join(ops, ", "))
+			}
 			return fmt.Sprintf("fmt.Sprint(%s)", g.nonLit(st, depth-1))
 		default:
 			if !g.avoid("sprintf") {
